@@ -8,8 +8,7 @@
    of the four strategies of the real Reasoner; a run returns Some (facts in the store afterwards, returned
    new facts) or None when the explicit fuel is exhausted (excluded by C05_terminates).
    [safe P] : every rule has at least one premise and its conclusion / filter / negated-atom variables
-   occur in a premise.  [known_C05_varcmp P = false] : no filter compares two variables with an order operator
-   (the code lets such a filter pass, the Spec compares the numeric values: C05_varcmp_refuted).  The naive, semi-naive and parallel models never read the negated atoms, and
+   occur in a premise.  Numeric filters: a term that is not a number counts as 0 in the Spec and in the model alike.  The naive, semi-naive and parallel models never read the negated atoms, and
    [derives] does not either: for programs with negated atoms the theorems below therefore speak about
    the program with the negated atoms erased, which is NOT the stratified model - see
    C05_negation_ignored_refuted. *)
@@ -54,50 +53,50 @@ Print Assumptions C05_join_rows_homogeneous.
 (* (2) Naive strategy: soundness and completeness. *)
 Theorem C05_naive :
   forall nv P F fuel all new,
-    safe P = true -> known_C05_varcmp P = false -> naive_run nv fuel P F = Some (all, new) ->
+    safe P = true -> naive_run nv fuel P F = Some (all, new) ->
     (forall f, In f all <-> derives nv P F f) /\
     (forall f, In f new <-> derives nv P F f /\ ~ In f F) /\ NoDup new.
-Proof. intros nv P F fuel all new HS HV. apply (naive_correct nv P F HS HV). Qed.
+Proof. intros nv P F fuel all new HS. apply (naive_correct nv P F HS). Qed.
 Print Assumptions C05_naive.
 
 (* (3) Semi-naive strategy (delta window over the fact vector): soundness and completeness. *)
 Theorem C05_semi_naive :
   forall nv P F fuel all new,
-    safe P = true -> known_C05_varcmp P = false -> semi_run nv fuel P F = Some (all, new) ->
+    safe P = true -> semi_run nv fuel P F = Some (all, new) ->
     (forall f, In f all <-> derives nv P F f) /\
     (forall f, In f new <-> derives nv P F f /\ ~ In f F) /\ NoDup new.
-Proof. intros nv P F fuel all new HS HV. apply (semi_correct nv P F HS HV). Qed.
+Proof. intros nv P F fuel all new HS. apply (semi_correct nv P F HS). Qed.
 Print Assumptions C05_semi_naive.
 
 (* Provenance strategy with Boolean tags on a program without negated atoms. *)
 Theorem C05_provenance_bool :
   forall nv P F fuel all new,
-    safe P = true -> known_C05_varcmp P = false -> positive P = true -> prov_bool_run nv fuel P F = Some (all, new) ->
+    safe P = true -> positive P = true -> prov_bool_run nv fuel P F = Some (all, new) ->
     (forall f, In f all <-> derives nv P F f) /\
     (forall f, In f new <-> derives nv P F f /\ ~ In f F) /\ NoDup new.
-Proof. intros nv P F fuel all new HS HV HP. rewrite (prov_bool_positive nv fuel P F HP). apply (semi_correct nv P F HS HV). Qed.
+Proof. intros nv P F fuel all new HS HP. rewrite (prov_bool_positive nv fuel P F HP). apply (semi_correct nv P F HS). Qed.
 Print Assumptions C05_provenance_bool.
 
 (* (4) A second run - from any listing M of the stored facts, under either strategy - derives nothing. *)
 Theorem C05_idempotent :
   forall nv P F M fuel,
-    safe P = true -> known_C05_varcmp P = false -> (forall f, In f M <-> derives nv P F f) ->
+    safe P = true -> (forall f, In f M <-> derives nv P F f) ->
     naive_run nv (S fuel) P M = Some (M, []) /\ semi_run nv (S fuel) P M = Some (M, []).
-Proof. intros nv P F M fuel HS HV HM. split; [apply (naive_idempotent nv P F M fuel HS HV HM) | apply (semi_idempotent nv P F M fuel HS HV HM)]. Qed.
+Proof. intros nv P F M fuel HS HM. split; [apply (naive_idempotent nv P F M fuel HS HM) | apply (semi_idempotent nv P F M fuel HS HM)]. Qed.
 Print Assumptions C05_idempotent.
 
 (* The stored set does not depend on the order (or multiplicity) of rules and facts, nor on the strategy. *)
 Theorem C05_order :
   forall nv P P' F F' fuel fuel' all new all' new',
-    safe P = true -> known_C05_varcmp P = false -> (forall r, In r P <-> In r P') -> (forall g, In g F <-> In g F') ->
+    safe P = true -> (forall r, In r P <-> In r P') -> (forall g, In g F <-> In g F') ->
     (naive_run nv fuel P F = Some (all, new) \/ semi_run nv fuel P F = Some (all, new)) ->
     (naive_run nv fuel' P' F' = Some (all', new') \/ semi_run nv fuel' P' F' = Some (all', new')) ->
     forall f, In f all <-> In f all'.
 Proof.
-  intros nv P P' F F' fuel fuel' all new all' new' HS HV HP HF H1 H2 f.
-  pose proof (safe_set_eq P P' HP HS) as HS'. pose proof (varcmp_set_eq P P' HP HV) as HV'.
-  assert (A : forall f, In f all <-> derives nv P F f) by (destruct H1 as [H1 | H1]; [apply (naive_correct nv P F HS HV _ _ _ H1) | apply (semi_correct nv P F HS HV _ _ _ H1)]).
-  assert (B : forall f, In f all' <-> derives nv P' F' f) by (destruct H2 as [H2 | H2]; [apply (naive_correct nv P' F' HS' HV' _ _ _ H2) | apply (semi_correct nv P' F' HS' HV' _ _ _ H2)]).
+  intros nv P P' F F' fuel fuel' all new all' new' HS HP HF H1 H2 f.
+  pose proof (safe_set_eq P P' HP HS) as HS'.
+  assert (A : forall f, In f all <-> derives nv P F f) by (destruct H1 as [H1 | H1]; [apply (naive_correct nv P F HS _ _ _ H1) | apply (semi_correct nv P F HS _ _ _ H1)]).
+  assert (B : forall f, In f all' <-> derives nv P' F' f) by (destruct H2 as [H2 | H2]; [apply (naive_correct nv P' F' HS' _ _ _ H2) | apply (semi_correct nv P' F' HS' _ _ _ H2)]).
   rewrite A, B. apply derives_set_eq; assumption.
 Qed.
 Print Assumptions C05_order.
@@ -105,11 +104,11 @@ Print Assumptions C05_order.
 (* (5) Termination: with more fuel than |constants of P and F|^3 the driver returns. *)
 Theorem C05_terminates :
   forall nv P F fuel,
-    safe P = true -> known_C05_varcmp P = false -> (length (consts P F) * (length (consts P F) * length (consts P F)) < fuel)%nat ->
+    safe P = true -> (length (consts P F) * (length (consts P F) * length (consts P F)) < fuel)%nat ->
     naive_run nv fuel P F <> None /\ semi_run nv fuel P F <> None.
 Proof.
-  intros nv P F fuel HS HV Hf. rewrite <- cube_length in Hf.
-  split; [apply (naive_terminates nv P F HS HV fuel Hf) | apply (semi_terminates nv P F HS HV fuel Hf)].
+  intros nv P F fuel HS Hf. rewrite <- cube_length in Hf.
+  split; [apply (naive_terminates nv P F HS fuel Hf) | apply (semi_terminates nv P F HS fuel Hf)].
 Qed.
 Print Assumptions C05_terminates.
 
@@ -142,7 +141,7 @@ Proof.
   - assert (R : exists all new, naive_run (fun _ => 0%Z) 10 wit_P wit_F = Some (all, new) /\ In (0, 5, 3) all).
     { eexists. eexists. split; [vm_compute; reflexivity |]. vm_compute. tauto. }
     destruct R as [all [new [R Hin]]].
-    destruct (naive_correct (fun _ => 0%Z) wit_P wit_F eq_refl eq_refl 10%nat all new R) as [A _]. apply A. exact Hin.
+    destruct (naive_correct (fun _ => 0%Z) wit_P wit_F eq_refl 10%nat all new R) as [A _]. apply A. exact Hin.
   - vm_compute. intros H. repeat (destruct H as [H | H]; [discriminate |]). exact H.
 Qed.
 Print Assumptions C05_parallel_refuted.
@@ -214,10 +213,10 @@ Print Assumptions C05_negation_single_pass_refuted.
 (* Outside that class the provenance strategy (Boolean tags) computes the stratified model. *)
 Theorem C05_negation_prov :
   forall nv P F fuel all new,
-    safe P = true -> known_C05_varcmp P = false -> known_C05_neg_feed P = false -> prov_bool_run nv fuel P F = Some (all, new) ->
+    safe P = true -> known_C05_neg_feed P = false -> prov_bool_run nv fuel P F = Some (all, new) ->
     (forall f, In f all <-> stratified_model nv P F f) /\
     (forall f, In f new <-> stratified_model nv P F f /\ ~ In f F) /\ NoDup new.
-Proof. intros nv P F fuel all new HS HV HK. apply (prov_neg_correct nv P F HS HV HK). Qed.
+Proof. intros nv P F fuel all new HS HK. apply (prov_neg_correct nv P F HS HK). Qed.
 Print Assumptions C05_negation_prov.
 
 Example C05_example_negation :
@@ -239,16 +238,16 @@ Print Assumptions C05_parallel_terminates.
 
 Theorem C05_provenance_terminates :
   forall nv P F fuel,
-    safe P = true -> known_C05_varcmp P = false ->
+    safe P = true ->
     (length (consts P F) * (length (consts P F) * length (consts P F)) < fuel)%nat ->
     prov_bool_run nv fuel P F <> None.
-Proof. intros nv P F fuel HS HV Hf. rewrite <- cube_length in Hf. apply (prov_terminates nv P F fuel HS HV Hf). Qed.
+Proof. intros nv P F fuel HS Hf. rewrite <- cube_length in Hf. apply (prov_terminates nv P F fuel HS Hf). Qed.
 Print Assumptions C05_provenance_terminates.
 
 (* Total form: with enough fuel every strategy RETURNS the specified model (outside its known class). *)
 Theorem C05_total :
   forall nv P F fuel,
-    safe P = true -> known_C05_varcmp P = false -> (length (consts P F) * (length (consts P F) * length (consts P F)) < fuel)%nat ->
+    safe P = true -> (length (consts P F) * (length (consts P F) * length (consts P F)) < fuel)%nat ->
     (exists all new, naive_run nv fuel P F = Some (all, new) /\ forall f, In f all <-> derives nv P F f) /\
     (exists all new, semi_run nv fuel P F = Some (all, new) /\ forall f, In f all <-> derives nv P F f) /\
     (known_C05_par P = false ->
@@ -258,21 +257,21 @@ Theorem C05_total :
     (positive P = true ->
      exists all new, prov_bool_run nv fuel P F = Some (all, new) /\ forall f, In f all <-> derives nv P F f).
 Proof.
-  intros nv P F fuel HS HV Hf. pose proof Hf as Hf'. rewrite <- cube_length in Hf'.
+  intros nv P F fuel HS Hf. pose proof Hf as Hf'. rewrite <- cube_length in Hf'.
   split; [| split; [| split; [| split]]].
-  - pose proof (naive_terminates nv P F HS HV fuel Hf') as T. destruct (naive_run nv fuel P F) as [[all new] |] eqn:E; [| congruence].
-    exists all, new. split; [reflexivity |]. apply (naive_correct nv P F HS HV fuel all new E).
-  - pose proof (semi_terminates nv P F HS HV fuel Hf') as T. destruct (semi_run nv fuel P F) as [[all new] |] eqn:E; [| congruence].
-    exists all, new. split; [reflexivity |]. apply (semi_correct nv P F HS HV fuel all new E).
+  - pose proof (naive_terminates nv P F HS fuel Hf') as T. destruct (naive_run nv fuel P F) as [[all new] |] eqn:E; [| congruence].
+    exists all, new. split; [reflexivity |]. apply (naive_correct nv P F HS fuel all new E).
+  - pose proof (semi_terminates nv P F HS fuel Hf') as T. destruct (semi_run nv fuel P F) as [[all new] |] eqn:E; [| congruence].
+    exists all, new. split; [reflexivity |]. apply (semi_correct nv P F HS fuel all new E).
   - intros HK. pose proof (par_terminates nv P F (known_par_false P HS HK) fuel Hf') as T.
     destruct (par_run fuel P F) as [[all new] |] eqn:E; [| congruence].
     exists all, new. split; [reflexivity |]. apply (par_correct nv P F (known_par_false P HS HK) fuel all new E).
-  - intros HK. pose proof (prov_terminates nv P F fuel HS HV Hf') as T.
+  - intros HK. pose proof (prov_terminates nv P F fuel HS Hf') as T.
     destruct (prov_bool_run nv fuel P F) as [[all new] |] eqn:E; [| congruence].
-    exists all, new. split; [reflexivity |]. apply (prov_neg_correct nv P F HS HV HK fuel all new E).
-  - intros HP. pose proof (prov_terminates nv P F fuel HS HV Hf') as T.
+    exists all, new. split; [reflexivity |]. apply (prov_neg_correct nv P F HS HK fuel all new E).
+  - intros HP. pose proof (prov_terminates nv P F fuel HS Hf') as T.
     destruct (prov_bool_run nv fuel P F) as [[all new] |] eqn:E; [| congruence].
-    exists all, new. split; [reflexivity |]. rewrite (prov_bool_positive nv fuel P F HP) in E. apply (semi_correct nv P F HS HV fuel all new E).
+    exists all, new. split; [reflexivity |]. rewrite (prov_bool_positive nv fuel P F HP) in E. apply (semi_correct nv P F HS fuel all new E).
 Qed.
 Print Assumptions C05_total.
 
@@ -296,13 +295,13 @@ Print Assumptions C05_join_bucketed_eq_nested_spelled.
 
 Theorem C05_naive_spelled :
   forall (tbl : names) nv P F fuel all new,
-    no_synthetic_names tbl P = true -> safe P = true -> known_C05_varcmp P = false ->
+    no_synthetic_names tbl P = true -> safe P = true ->
     vnaive_run (vk_of tbl) nv fuel P F = Some (all, new) ->
     (forall f, In f all <-> derives nv P F f) /\
     (forall f, In f new <-> derives nv P F f /\ ~ In f F) /\ NoDup new.
 Proof.
-  intros tbl nv P F fuel all new HN HS HV H.
-  rewrite (vnaive_run_eq (vk_of tbl) P (no_synthetic_names_spec tbl P HN)) in H. apply (naive_correct nv P F HS HV fuel all new H).
+  intros tbl nv P F fuel all new HN HS H.
+  rewrite (vnaive_run_eq (vk_of tbl) P (no_synthetic_names_spec tbl P HN)) in H. apply (naive_correct nv P F HS fuel all new H).
 Qed.
 Print Assumptions C05_naive_spelled.
 
@@ -339,7 +338,7 @@ Proof.
   - assert (R : exists all new, naive_run (fun _ => 0%Z) 10 cap_P cap_F = Some (all, new) /\ In (1, 6, 3) all).
     { eexists. eexists. split; [vm_compute; reflexivity |]. vm_compute. tauto. }
     destruct R as [all [new [R Hin]]].
-    destruct (naive_correct (fun _ => 0%Z) cap_P cap_F eq_refl eq_refl 10%nat all new R) as [A _]. apply A. exact Hin.
+    destruct (naive_correct (fun _ => 0%Z) cap_P cap_F eq_refl 10%nat all new R) as [A _]. apply A. exact Hin.
   - vm_compute. intros H. repeat (destruct H as [H | H]; [discriminate |]). exact H.
 Qed.
 Print Assumptions C05_synthetic_capture_refuted.
@@ -350,33 +349,18 @@ Example C05_example_spelled :
   vnaive_run (vk_of [(0, "?who"%string)]) (fun _ => 0%Z) 10 cap_P cap_F = Some (cap_F ++ [(1, 6, 3)], [(1, 6, 3)]).
 Proof. repeat split; vm_compute; reflexivity. Qed.
 
-(* ---- variable-variable order filters ---------------------------------------------------------------------- *)
-(* evaluate_filters implements only = and != between two bound variables and lets every other operator pass; the
-   Spec compares the numeric values.  Hence the hypothesis known_C05_varcmp P = false above; inside the class the
-   statement is false.  Witness (corpus/C05/filter-var-order.json, reproduced on the real code): constants "1", "5",
-   facts (1 p 5) (5 p 1), rule (X p Y), X < Y -> (X q Y): all join-based strategies also store (5 q 1). *)
-Definition vc_P : list rule := [Rule [(V 0, C 2, V 1)] [] [FVar 0 Lt 1] [(V 0, C 3, V 1)]].
-Definition vc_F : list fact := [(0, 2, 1); (1, 2, 0)].
-Definition vc_nv (c : N) : Z := if N.eqb c 0 then 1%Z else if N.eqb c 1 then 5%Z else 0%Z.
-
-Theorem C05_varcmp_refuted :
-  exists nv P F fuel,
-    safe P = true /\ positive P = true /\ known_C05_varcmp P = true /\
-    exists f, ~ derives nv P F f /\
-      (exists all new, naive_run nv fuel P F = Some (all, new) /\ In f all) /\
-      (exists all new, semi_run nv fuel P F = Some (all, new) /\ In f all) /\
-      (exists all new, prov_bool_run nv fuel P F = Some (all, new) /\ In f all).
+(* ---- variable-variable order filters (regression) ----------------------------------------------------------- *)
+(* Before the repair 7537bd2 evaluate_filters let every operator other than = / != pass when the filter value named a
+   bound variable ([eval_filter_pre7537], kept only for this lemma).  The evaluation then disagreed with the Spec - and
+   with the present model - already on one row: X = "5", Y = "1", filter X < Y. *)
+Theorem C05_varcmp_regression :
+  exists (nv : N -> Z) (r : row) (f : fcond),
+    eval_filter_pre7537 nv r f = true /\ eval_filter nv r f = false /\ filter_ok nv (row_val r) f = false.
 Proof.
-  exists vc_nv, vc_P, vc_F, 10%nat.
-  split; [reflexivity |]. split; [reflexivity |]. split; [reflexivity |].
-  exists (1, 3, 0). split.
-  - assert (E : exists M, least_model vc_nv 10 vc_P vc_F = Some M /\ ~ In (1, 3, 0) M).
-    { eexists. split; [vm_compute; reflexivity |]. vm_compute. intros H. repeat (destruct H as [H | H]; [discriminate |]). exact H. }
-    destruct E as [M [E Hn]]. intros D. apply Hn.
-    apply (least_model_correct vc_nv 10%nat vc_P vc_F M (safe_rr vc_P eq_refl) E). exact D.
-  - repeat split; eexists; eexists; (split; [vm_compute; reflexivity | vm_compute; tauto]).
+  exists (fun c => if N.eqb c 0 then 1%Z else 5%Z), [(KV 0, 1); (KV 1, 0)], (FVar 0 Lt 1).
+  repeat split; vm_compute; reflexivity.
 Qed.
-Print Assumptions C05_varcmp_refuted.
+Print Assumptions C05_varcmp_regression.
 
 (* non-vacuity: a concrete program on which every hypothesis above holds and the runs return *)
 Definition ex_P : list rule :=
